@@ -415,3 +415,42 @@ def unit_dataset(prop):
         return run_parallel("dataset", jobs, to_case=cli._to_case_plan("rtc." + prop.lower()), replay_module="rtc." + prop.lower())
     unit.__name__ = "dataset"
     return unit
+
+
+# ------------------------------------------------------------------------------------------ FrameComputer.compute_full (the inherited default)
+# A computer that does not override compute_full gets the base class's: exactly one frame_by_frame_calculation(self, signal) with the default
+# chunk size, its result returned as it is - so C01's "compute_full equals any chunking" holds for such a computer by the contract of
+# frame_by_frame_calculation (contracts/stft_stream.py: contract_fbf).
+def generate_base_full(prop):
+    from contracts.registry import run_contract
+
+    def setup(ex, st):
+        api.mk_obj(st, "self", "FrameComputer", {})
+        st.env["signal"] = Opaque("SIGNAL", "array")
+        st.ghost["calls"] = []
+        ex.entry_fields = dict(st.fields)
+
+    def h_fbf(ex, st, args, kwargs, node, ev):
+        st.ghost["calls"] = st.ghost["calls"] + [(tuple(args), dict(kwargs))]
+        return Opaque("FBF_RESULT", "array")
+
+    def ok(ev, res):
+        calls = ev.st.ghost["calls"]
+        if len(calls) != 1 or not (isinstance(res, Opaque) and res.term == "FBF_RESULT"):
+            return False
+        args, kw = calls[0]
+        return len(args) == 2 and not kw and args[0] is ev.st.env["self"] and isinstance(args[1], Opaque) and args[1].term == "SIGNAL"
+
+    c = Contract(target="compute:FrameComputer.compute_full", uses=["A-PYSEM"], consts={"DELEGATED": SpecFn(ok)},
+                 handlers={"frame_by_frame_calculation": h_fbf},
+                 ensures=[("one_frame_by_frame_calculation_of_the_whole_signal_with_the_default_chunk_size", "DELEGATED(result)")])
+    return run_contract(prop, ("compute", "FrameComputer.compute_full"), c, [("", setup)], name="base_compute_full", fname="FrameComputer.compute_full")
+
+
+def unit_base_full(prop):
+    def unit(tier, known):
+        from contracts.registry import run_parallel
+        from contracts import stft_stream
+        return run_parallel("base_compute_full", [("contracts.accessors", "generate_base_full", (prop,))], to_case=stft_stream.to_case_fbf, replay_module="rtc.c01")
+    unit.__name__ = "base_compute_full"
+    return unit
